@@ -332,3 +332,69 @@ Fixpoint cfg_after (c : cfg) (h : list timed) : cfg :=
   | (_, Reload c') :: rest | (_, Reuse c') :: rest => cfg_after c' rest
   | _ :: rest => cfg_after c rest
   end.
+
+(* ------------------------------------------------------------------ the refresh slot at atomic granularity *)
+(* Threads racing on DnsCache.refreshing of ONE stale entry: lookups that reached the claim of
+   LookupDnsRespCache_ and completions of background refreshes (deferred block of backgroundRefresh).
+   One step = one atomic operation on the flag.
+     claim, as written:     refreshing.CompareAndSwap(false, true)          one step          (VCas)
+     claim, test-then-set:  refreshing.Load(); refreshing.Store(true)       two steps         (VLoadStore; NOT the code - kept
+                                                                             so that a source with that shape can still be followed)
+     completion:            IsRefreshing() = Load; MarkRefreshed() = Store(false)   two steps *)
+Inductive rvariant := VCas | VLoadStore.
+Inductive rpc :=
+| LStart                 (* lookup: about to claim *)
+| LLoaded                (* lookup (test-then-set only): saw the flag clear, about to store true *)
+| LDone (refresh : bool) (* lookup returned with needRefresh = refresh *)
+| CStart                 (* completion: about to read the flag *)
+| CLoaded                (* completion: saw the flag set, about to clear it *)
+| CDone.
+Inductive revent := EvClaim | EvClear.
+
+Definition rstep (v : rvariant) (flag : bool) (p : rpc) : bool * rpc * option revent :=
+  match p with
+  | LStart =>
+      match v with
+      | VCas => if flag then (flag, LDone false, None) else (true, LDone true, Some EvClaim)
+      | VLoadStore => if flag then (flag, LDone false, None) else (flag, LLoaded, None)
+      end
+  | LLoaded => (true, LDone true, Some EvClaim)
+  | CStart => if flag then (flag, CLoaded, None) else (flag, CDone, None)
+  | CLoaded => (false, CDone, Some EvClear)
+  | LDone _ | CDone => (flag, p, None)
+  end.
+
+Fixpoint set_pc (l : list rpc) (i : nat) (x : rpc) : list rpc :=
+  match l, i with
+  | [], _ => []
+  | _ :: t, O => x :: t
+  | h :: t, S i' => h :: set_pc t i' x
+  end.
+
+Record rstate := { r_flag : bool; r_pcs : list rpc }.
+
+(* one scheduler decision: thread i performs its next atomic operation (no-op when i is finished or absent) *)
+Definition rsched_step (v : rvariant) (s : rstate) (i : nat) : rstate * option revent :=
+  match nth_error (r_pcs s) i with
+  | None => (s, None)
+  | Some p => let '(f, p', e) := rstep v (r_flag s) p in ({| r_flag := f; r_pcs := set_pc (r_pcs s) i p' |}, e)
+  end.
+
+Fixpoint rrun (v : rvariant) (s : rstate) (sched : list nat) : rstate * list revent :=
+  match sched with
+  | [] => (s, [])
+  | i :: rest =>
+      let '(s1, e) := rsched_step v s i in
+      let '(s2, tr) := rrun v s1 rest in
+      (s2, match e with Some x => x :: tr | None => tr end)
+  end.
+
+(* the clause: never two claims without a completion in between *)
+Fixpoint one_claim_per_cycle (open : bool) (tr : list revent) : bool :=
+  match tr with
+  | [] => true
+  | EvClaim :: t => if open then false else one_claim_per_cycle true t
+  | EvClear :: t => one_claim_per_cycle false t
+  end.
+
+Definition rpc_start (p : rpc) : bool := match p with LStart | CStart => true | _ => false end.
